@@ -79,7 +79,7 @@ func c12Setup(fsType string, sa, sb uint64) (avfs.VFS, gen.Cfg) {
 	base := newBase(fsType)
 	buildTree(base, rand.New(rand.NewPCG(sa, sb)), treeCfg(fsType), 20)
 	cfg := treeCfg(fsType)
-	cfg.Chdir, cfg.Temps, cfg.Handles, cfg.Walk = true, true, true, true
+	cfg.Chdir, cfg.Temps, cfg.Handles, cfg.Walk, cfg.NoChange = true, true, true, true, true
 	return base, cfg
 }
 
